@@ -784,6 +784,13 @@ pub fn coherence_program() -> (String, usize) {
         if matches!(*name, "int" | "float" | "str") {
             rel.push_str(" && format(v_a, \"\") == to_str(v_a)");
         }
+        if *name == "float" {
+            // equal values format equally, under every specifier (0.0 and -0.0 are equal)
+            rel.push_str(" && (!(v_a == v_b) || (format(v_a, \".1f\") == format(v_b, \".1f\") && format(v_a, \"+.2f\") == format(v_b, \"+.2f\") && format(v_a, \"08.1f\") == format(v_b, \"08.1f\") && format(v_a, \" .1e\") == format(v_b, \" .1e\") && format(v_a, \".0%\") == format(v_b, \".0%\")))");
+        }
+        if *name == "int" {
+            rel.push_str(" && (!(v_a == v_b) || (format(v_a, \"+,\") == format(v_b, \"+,\") && format(v_a, \"08\") == format(v_b, \"08\")))");
+        }
         text.push_str(&format!("fn v_rel_{id}(v_a: {ty}, v_b: {ty})->bool{{ {rel} }}\n"));
         text.push_str(&format!("let v_pool_{id} = [{}];\n", pool.iter().map(|p| format!("cast<{ty}>({p})")).collect::<Vec<_>>().join(", ")));
         let n = pool.len();
